@@ -45,14 +45,20 @@ def build_sig(spec, name, carrier='func'):
     if r is None:
         if len(_built) > 20000:
             _built.clear()
-        if carrier == 'func':
+        flags, glob = 0, G
+        if carrier in ('func', 'future', 'future-swapped'):
             src = 'def %s(%s):\n    return 0\n' % (name, universe.spec_text(spec))
+            if carrier != 'func':
+                # compiled with the future flag; 'swapped': in globals where the two spellings denote each other's value
+                import __future__
+                flags = __future__.annotations.compiler_flag
+                glob = G if carrier == 'future' else dict(G, A1=G['A2'], A2=G['A1'])
         else:
             sp = (Par('self', PO if any(p.kind == PO for p in spec) else POK),) + tuple(spec)
             meth = '__call__' if carrier == 'instance' else '__init__'
             src = 'class _K(object):\n    def %s(%s):\n        return None\n%s = _K%s\n' % (
                 meth, universe.spec_text(sp), name, '()' if carrier == 'instance' else '')
-        g = realfn.load(src, dict(G), register=False)
+        g = realfn.load(src, dict(glob), register=False, flags=flags)
         r = _built[key] = signatures.signature(g[name])
     return r
 
@@ -62,7 +68,13 @@ def carriers_for(specs):
     from vlib.framework import stable_hash
     if any(p.name == 'self' for s in specs for p in s):
         return ['func'] * len(specs)
-    return [('func', 'func', 'func', 'instance', 'class')[stable_hash([universe.spec_text(s) for s in specs] + [i]) % 5] for i in range(len(specs))]
+    cars = [('func', 'func', 'func', 'instance', 'class', 'future', 'future-swapped', 'func')[stable_hash([universe.spec_text(s) for s in specs] + [i]) % 8]
+            for i in range(len(specs))]
+    if any(c.startswith('future') for c in cars):
+        # carriers without a code object have no upgraded annotation (finding F52, recorded under C11): next to a postponed
+        # annotation only the raw values could be compared; that combination is excluded here, by construction
+        cars = ['func' if c in ('instance', 'class') else c for c in cars]
+    return cars
 
 
 _built = {}
@@ -72,8 +84,21 @@ def _unused():
     pass
 
 
+def ann_value(p):
+    """What the annotation denotes where it was written (postponed annotations are spellings); the raw annotation for
+    parameters without an upgraded one (carriers without a code object)."""
+    if p.annotation is p.empty:
+        return NOANN
+    up = getattr(p, 'upgraded_annotation', None)
+    if up is not None:
+        v = up.source_value()
+        if v is not p.empty:
+            return v
+    return p.annotation
+
+
 def pinfo(p):
-    return (p.name, int(p.kind), NODEF if p.default is p.empty else p.default, NOANN if p.annotation is p.empty else p.annotation)
+    return (p.name, int(p.kind), NODEF if p.default is p.empty else p.default, ann_value(p))
 
 
 def kind_ok(result_kind, contrib_kinds):
@@ -112,8 +137,10 @@ def check_merge(specs, stats, enum=False):
         stats.cls('merge/raised')
         return
     stats.cls('merge/n=%d' % len(specs))
-    if any(c != 'func' for c in cars):
+    if any(c in ('instance', 'class') for c in cars):
         stats.cls('merge/with-codeless-carrier')
+    if any(c.startswith('future') for c in cars):
+        stats.cls('merge/with-postponed-carrier')
     case = {'op': 'merge', 'specs': [list(map(list, s)) for s in specs]}
     desc = 'merge(%s)' % ', '.join('%s(%s)' % ('' if c == 'func' else c + ' ', universe.spec_text(s)) for s, c in zip(specs, cars))
     nontriv = False
